@@ -94,6 +94,7 @@ func ConnectSession(ctx context.Context, cluster *Cluster, config SessionConfig)
 func (s *Session) Send(host *Host, request Request) error {
 	conn := s.leastBusyConn(host)
 	if conn == nil {
+		vhook("send.noconn", s, host, request)
 		return NoConnForHost
 	}
 	return conn.Send(request)
@@ -129,6 +130,7 @@ func (s *Session) OnEvent(event Event) {
 						}
 					}
 					s.pools.Store(host.Key(), pool)
+					vhook("pool.store", s, host, pool)
 					wg.Done()
 				}(host)
 			}
@@ -143,11 +145,15 @@ func (s *Session) OnEvent(event Event) {
 			Endpoint:      evt.Host.Endpoint,
 			SessionConfig: s.config,
 		})); loaded {
+			vhook("pool.add", s, evt.Host, true)
 			p := pool.(*connPool)
 			p.cancel()
+		} else {
+			vhook("pool.add", s, evt.Host, false)
 		}
 	case *RemoveEvent:
 		if pool, ok := s.pools.LoadAndDelete(evt.Host.Key()); ok {
+			vhook("pool.remove", s, evt.Host)
 			p := pool.(*connPool)
 			p.cancel()
 		}
